@@ -9,7 +9,7 @@ Decides only:
 """
 import ast
 
-from ..srcmodel import Unrecognised, unparse, call_name, kwarg, walk, statements, guards_of, const
+from ..srcmodel import established_false, Unrecognised, unparse, call_name, kwarg, walk, statements, guards_of, const
 
 LEVEL = 'other'
 EXPLANATION = ('sibling dispatch tables of the Obs operator overloads (isinstance narrowing), store-site join of the reweighted slot type, '
@@ -352,41 +352,6 @@ def d5_idl_normalisation(ctx, obs):
     mc = obs.func('Obs.mc_names')
     ok = "sorted(set([o.split('|')[0] for o in self.names if o not in self.cov_names]))" in unparse(mc)
     ctx.check(rule, 'obs.py:Obs.mc_names', ok, 'Monte Carlo ensembles exclude covariance names', 'mc_names differs')
-
-
-def _always_exits(stmts):
-    if not stmts:
-        return False
-    last = stmts[-1]
-    if isinstance(last, (ast.Raise, ast.Return, ast.Continue, ast.Break)):
-        return True
-    if isinstance(last, ast.If):
-        return _always_exits(last.body) and _always_exits(last.orelse)
-    return False
-
-
-def established_false(mod, func, node):
-    """tests known to be false when `node` executes: enclosing if/elif tests with negative polarity and the tests of preceding
-    sibling if/elif chains (in any enclosing block of the function) whose branch leaves the block (raise/return/continue/break)"""
-    out = [t for t, pol in guards_of(mod, node, stop=func) if not pol]
-    cur = node
-    while cur is not func and cur is not None:
-        par = mod.parents.get(cur)
-        if par is None:
-            break
-        for field in ('body', 'orelse', 'finalbody'):
-            blk = getattr(par, field, None)
-            if isinstance(blk, list) and cur in blk:
-                for prev in blk[:blk.index(cur)]:
-                    x = prev
-                    while isinstance(x, ast.If):
-                        if _always_exits(x.body):
-                            out.append(x.test)
-                        else:
-                            break
-                        x = x.orelse[0] if len(x.orelse) == 1 and isinstance(x.orelse[0], ast.If) else None
-        cur = par
-    return out
 
 
 def d6_idl_stores(ctx, obs):
